@@ -193,7 +193,7 @@ def run(F, tier, res):
             okm += 1
         else:
             res.violate('MEMO', 'fn=%s;state' % p, 'the blame handler does not store State::Blame(key): the next line cannot see its predecessor', where=F.bodies[p]['mir']['span']['at'])
-    res.rule('C17.MEMO', nm, 3, 'memo insert after colour choice; is_repeat provenance; Blame(key) state stored', discharged=okm)
+    res.rule('C17.MEMO', nm, 1, 'memo insert after colour choice; is_repeat provenance; Blame(key) state stored', discharged=okm)
     # ---------- REGEX
     acc, statics = rxsites.capture_accesses(F)
     nr = okr = 0
@@ -209,6 +209,6 @@ def run(F, tier, res):
                 okr += 1
             else:
                 res.violate('REGEX', 'fn=%s;group=%s' % (a['fn'], a['index']), 'capture group %s of the blame line regex is read with unwrap() but does not participate in every match: a blame line can crash delta' % a['index'], where=a['where'])
-    res.rule('C17.REGEX', nr, 5, 'unwrapped capture-group reads of the blame line regex; each group mandatory', discharged=okr)
+    res.rule('C17.REGEX', nr, 3, 'unwrapped capture-group reads of the blame line regex; each group mandatory', discharged=okr)
     res.distinct.update(r['rule'] for r in res.rules)
     return res
